@@ -80,6 +80,8 @@ pub enum Outcome {
 pub enum Stmt {
     /// `let mut accN = Error::accumulator();` appended to the current scope's slots.
     New,
+    /// the same through the other public constructor: `Accumulator::default()`
+    NewDefault,
     Push(Slot, ErrSpec),
     HandleOk(Slot, u32),
     HandleErr(Slot, ErrSpec),
